@@ -5,7 +5,7 @@ from ..core import sym
 from ..core.expand import u, call_name, get_arg, bind_args, Expander, is_marker
 from ..core.loader import Inconclusive, const_value, parents
 from .common import (returns, all_nodes, callee, strip_shape, calls_in, guards_of, stmt_of, loops_around, role_of,
-                     subscript_stores, kw, is_true)
+                     subscript_stores, kw, is_true, is_none_test, receiver_writes, is_class_level_mutable)
 from . import sentinel
 
 EXPLANATION = (
@@ -304,10 +304,58 @@ def rule_pure_gridding(ck):
         for a in find_assignments_local(f, 'mag_bins'):
             o = ck.ob('C03-D6.bins', f, a, a)
             g = guards_of(a, f.node)
-            ok = any(pol and u(t) == 'mag_bins is None' for t, pol in g)
+            ok = any(pol and is_none_test(t, 'mag_bins') for t, pol in g)
             (o.ok('region / default bins only when no mag_bins are given') if ok else
              o.fail('`%s` replaces the caller\'s mag_bins outside the `mag_bins is None` case: an explicit magnitude grid is silently ignored, so '
                     'the histogram disagrees with the equivalent magnitude-range filter' % u(a)))
+    # the region side of the lookup: locating a point changes nothing on the region (a memo of located points - on the instance or,
+    # worse, on the class - hands the answer of one grid / one binning to the next)
+    for q in ('csep.core.regions.CartesianGrid2D.get_index_of', 'csep.core.regions.CartesianGrid2D.get_masked',
+              'csep.core.regions.QuadtreeGrid2D.get_index_of', 'csep.core.regions.QuadtreeGrid2D._find_location'):
+        f = P.funcs.get(q)
+        if f is None:
+            continue
+        o = ck.ob('C03-D6.lookup', f, 'locating points writes nothing that region instances share', f.node)
+        w = receiver_writes(f)
+        cls_names = {c.node.name for c in P.classes.values()}
+        memo = [n for n in all_nodes(f) if isinstance(n, ast.Attribute) and isinstance(n.ctx, ast.Load) and isinstance(n.value, ast.Name)
+                and n.value.id in ('self', 'cls') and n.attr.startswith('_') and is_class_level_mutable(f, n.attr)]
+        def shared(stmt):
+            # the written attribute lives on the class (bound in the class body to a mutable object and never re-bound per instance)
+            for t in ast.walk(stmt):
+                if isinstance(t, ast.Attribute) and isinstance(t.value, ast.Name) and t.value.id in ('self', 'cls') and is_class_level_mutable(f, t.attr):
+                    init = f.cls.find_method('__init__') if getattr(f, 'cls', None) is not None else None
+                    per_instance = init is not None and any(isinstance(x, ast.Attribute) and isinstance(x.ctx, ast.Store) and x.attr == t.attr
+                                                            and isinstance(x.value, ast.Name) and x.value.id == 'self' for x in all_nodes(init))
+                    if not per_instance:
+                        return True
+            return False
+        w = [x for x in w if shared(x)]
+        if w:
+            o.fail('`%s` stores into a class-level object while locating points: the answer found on one grid is handed out by every other '
+                   'region instance for the same coordinates' % u(w[0])[:80])
+        elif memo:
+            o.fail('%s reads the class-level mutable `%s`, which every region instance shares' % (f.short, memo[0].attr))
+        else:
+            o.ok()
+    # D6.local: bins handed in for one call stay local to the call - the region object is shared with other catalogs and with the
+    # forecasts built on it, so a store into it (self.region.<attr> = ...) may only happen where no bins were given
+    for name in PURE:
+        f = P.func(CAT + name)
+        stores = [n for n in all_nodes(f) if isinstance(n, ast.Attribute) and isinstance(n.ctx, (ast.Store, ast.Del))
+                  and isinstance(n.value, ast.Attribute) and isinstance(n.value.value, ast.Name) and n.value.value.id == 'self' and n.value.attr == 'region']
+        if 'mag_bins' not in f.params and not stores:
+            continue
+        o = ck.ob('C03-D6.local', f, 'explicit magnitude bins are not written into the shared region', f.node)
+        bad = []
+        for n in stores:
+            st = stmt_of(n)
+            if 'mag_bins' in f.params and any(pol and is_none_test(t, 'mag_bins') for t, pol in guards_of(st, f.node)):
+                continue
+            bad.append(st)
+        (o.fail('`%s` runs also when the caller passed its own mag_bins (or on every call): the region is shared by every catalog and forecast '
+                'built on it, so one histogram on other edges re-bins all of them (6.0 against 5.95, 6.05, ... lands in the bin of the leaked grid)'
+                % u(bad[0])[:80]) if bad else o.ok('%d region store(s), all under `mag_bins is None`' % len(stores)))
 
 
 def find_assignments_local(f, name):
